@@ -428,6 +428,14 @@ func corpus() []aApp {
 			{Name: "Tree", Kind: "tuple", Fields: []aField{{"root", ref("Node", false)}, {"others", set(ref("Tree", false), true)}}}},
 			Endpoints: []aEndpoint{{Method: "PUT", Path: "/tree", Params: []aParam{{"t", "body", ref("Tree", true)}},
 				Rets: []aRet{{"ok", pt(ref("Node", false))}}}}},
+		{Name: "AfterTuple", Version: "1.0", Style: "imported", Types: []aTypeDef{
+			{Name: "Alpha", Kind: "tuple", Fields: []aField{{"id", prim("int", false)}, {"name", prim("string", true)}, {"tags", seq(prim("string", false), false)}}},
+			{Name: "Beta", Kind: "enum", Enum: []aEnumItem{{"on", 1}, {"off", 0}}},
+			{Name: "Gamma", Kind: "alias", Alias: pt(prim("int", false))},
+			{Name: "Delta", Kind: "alias", Alias: pt(ref("Alpha", false))},
+			{Name: "Omega", Kind: "tuple"},
+			{Name: "Zeta", Kind: "alias", Alias: pt(seq(prim("string", false), false))}},
+			Endpoints: []aEndpoint{{Method: "GET", Path: "/a", Rets: []aRet{{"200", pt(ref("Alpha", false))}}}}},
 		{Name: "Imported", Version: "1.0", Style: "imported", Types: []aTypeDef{
 			{Name: "Obj", Kind: "tuple", Fields: []aField{{"name", prim("string", true)}, {"id", prim("int", false)}, {"parts", seq(ref("Obj", false), true)}}}},
 			Endpoints: []aEndpoint{{Method: "POST", Path: "/test/{key}", Params: []aParam{
